@@ -2628,8 +2628,12 @@ impl<'store> QueryIter<'store> {
                 Box::new(store.find_text_nocase(text).annotations())
             }
             Some(Constraint::Regex(_regex)) => {
-                todo!("regex constraint not implemented yet"); //TODO
-                                                               //Box::new(store.find_text_regex(&regex).annotations())
+                //TODO: Box::new(store.find_text_regex(&regex).annotations())
+                return Err(StamError::QuerySyntaxError(
+                    "Constraint TEXT AS REGEX (primary) is not implemented for queries over annotations"
+                        .to_string(),
+                    "",
+                ));
             }
             Some(&Constraint::TextVariable(var)) => {
                 if let Ok(tsel) = self.resolve_textvar(var) {
@@ -3386,7 +3390,13 @@ impl<'store> QueryIter<'store> {
                     ));
                 }
             }
-            Some(&Constraint::Union(..)) => todo!("UNION not implemented yet"),
+            Some(&Constraint::Union(..)) => {
+                return Err(StamError::QuerySyntaxError(
+                    "Constraint UNION (primary) is not implemented for queries over TEXT selections"
+                        .to_string(),
+                    "",
+                ))
+            }
             Some(&Constraint::Limit { begin, end }) => {
                 Box::new(store.annotations().textselections().limit(begin, end))
             }
